@@ -82,7 +82,7 @@ var properties = map[string]Property{
 	},
 	"C08": {
 		Level:       "other",
-		Rules:       []string{"N-FORWARD", "N-DEEPEST", "O-SEQ", "B-CHAIN", "G-IMPORTS"},
+		Rules:       []string{"N-FORWARD", "N-DEEPEST", "O-SEQ", "B-CHAIN", "N-PRESENCE", "N-WALK", "G-IMPORTS"},
 		Explanation: "Decided (structural part): every call of a step (retrieve on the next node, or one of the retrieve-family helpers) passes the caller's own root and the caller's own sink (or a private pooled sink), the emitters hand the next step exactly the value they would emit themselves (container[key] of their parameters); fan-out loops are complete and leave only through their loop condition, branch errors are only accumulated through the deepest-error helper; the chain builder re-assigns its link target from the current step on every iteration. Not decided (the behavioural statement itself): that the builder links `next` to Q on every branch (the live `$..['a','b'].c` defect is there) and the relational equality of the three retrievals.",
 	},
 	"C09": {
@@ -103,22 +103,22 @@ var properties = map[string]Property{
 	},
 	"C12": {
 		Level:       "other",
-		Rules:       []string{"N-ACCESS", "N-ACCFLAG", "G-IMPORTS"},
+		Rules:       []string{"N-ACCESS", "N-ACCFLAG", "N-PRESENCE", "N-WALK", "N-CTOR", "G-IMPORTS"},
 		Explanation: "Decided (structural part): each of the three emission sites has one plain and one accessor branch selected by the node's own flag, and the accessor's Get re-reads exactly the location (or value) the plain branch emits; the flag-clearing pass sets the flag on every node it walks over and covers every retrieve edge that emits into the parent's sink (inner identifiers of a multi-name selector, its union twin); every place that attaches a chain as function argument or filter operand clears the flag on it. Not decided: equality of the two result sequences as such.",
 	},
 	"C13": {
 		Level:       "other",
-		Rules:       []string{"N-ACCESS", "N-FORWARD", "R-SET-USERONLY", "G-IMPORTS"},
+		Rules:       []string{"N-ACCESS", "N-FORWARD", "R-SET-USERONLY", "N-PRESENCE", "N-WALK", "N-CTOR", "G-IMPORTS"},
 		Explanation: "Decided (large structural part): at the map and list emission sites Get is the single expression container[key] and Set is exactly one assignment container[key] = value, both on the very container and key variables (captured once, never re-assigned) that the plain branch reads; at the any-value site Get returns the captured value and Set is nil; the value forwarded to the next step is the emitted one; the library never calls the closures it hands out. Not decided: that the accessor at result index i belongs to the location a specification predicts.",
 	},
 	"C14": {
 		Level:       "other",
-		Rules:       []string{"N-FUNCALL", "N-FORWARD", "P-RTERR", "O-POOL", "B-CHAIN", "P-RESTRICT", "G-IMPORTS"},
+		Rules:       []string{"N-FUNCALL", "N-FORWARD", "P-RTERR", "O-POOL", "B-CHAIN", "P-RESTRICT", "N-WALK", "G-IMPORTS"},
 		Explanation: "Decided (structural part): a function node calls its user function at exactly one site, outside loops; the filter function receives the node's current value; the aggregate receives the list of its private pooled sink, or element 0 as an array only under the parameter's value-group test being false and a successful checked assertion; the function's result is what is forwarded; ErrorFunctionFailed is built only when that call returned an error; the chain builder keeps its link target on the step just processed (so a step after an aggregate is linked behind the aggregate). Not decided: that the value-group flag is correct for the chain (the live `$.a.*.f()` defect), . Also decided: function names are looked up in the filter table first, then the aggregate table, else ErrorFunctionNotFound.",
 	},
 	"C15": {
 		Level:       "other",
-		Rules:       []string{"N-KIND", "P-NILGUARD", "P-RTERR", "N-DEEPEST", "G-IMPORTS"},
+		Rules:       []string{"N-KIND", "P-NILGUARD", "P-RTERR", "N-DEEPEST", "N-WALK", "G-IMPORTS"},
 		Explanation: "Decided (structural part): every type-mismatch error is built under failed type tests of the node's current value, its expected-kind text is in one-to-one correspondence with the set of container kinds the node navigates, its found text is a constant for nil and reflect.TypeOf(current).String() of that same value under a nil guard, and it references the raising node's own descriptor; inside fan-out loops the surviving error is chosen only by the deepest-error helper. Not decided: which of several branch errors is reported (depends on text lengths / traversal order).",
 	},
 	"C20": {
